@@ -494,8 +494,9 @@ func (x *codecExplorer) explore() {
 				x.maxDepth = 3
 			}
 		}
-		// remaining-length family (codec_tail.go)
+		// remaining-length family and dependency-directed family (codec_tail.go)
 		x.tailFamily(m)
+		x.depFamily(m)
 		// depth 1: full token alphabet
 		full1 := optTokens(m, true)
 		min1 := optTokens(m, false)
